@@ -38,8 +38,12 @@ pub fn scenario(max_ops: usize) -> impl Strategy<Value = Scenario> {
 		let cfg = DbCfg::new(cols);
 		let n = cfg.cols.len() as u8;
 		let items = proptest::collection::vec((0..n, rc_change(20)).prop_map(|(col, ch)| Item { col, ch }), 1..=8);
+		// large transactions over few keys (the operations of one key must keep their order
+		// however the change set is sorted or batched)
+		let bulk = (0..n, proptest::collection::vec(rc_change(9), 21..=70)).prop_map(|(col, chs)| chs.into_iter().map(|ch| Item { col, ch }).collect::<Vec<_>>());
 		let op = prop_oneof![
 			10 => items.prop_map(Op::Commit),
+			2 => bulk.prop_map(Op::Commit),
 			10 => stage_op(),
 			1 => Just(Op::Reopen),
 			1 => Just(Op::Drain),
